@@ -113,9 +113,10 @@ func (f *FnEnc) modSet(blocks map[*ssa.BasicBlock]bool) (map[*ssa.Alloc]bool, ma
 	// zeroing and callees with @fresh frames); fullMods: everything else
 	f.lastFreshMods = map[string]bool{}
 	f.lastFullMods = map[string]bool{}
+	f.lastTargets = map[string][]ssa.Value{}
 	defer func() {
 		for c := range comps {
-			if !f.lastFreshMods[c] {
+			if !f.lastFreshMods[c] && len(f.lastTargets[c]) == 0 {
 				f.lastFullMods[c] = true
 			}
 		}
@@ -147,9 +148,7 @@ func (f *FnEnc) modSet(blocks map[*ssa.BasicBlock]bool) (map[*ssa.Alloc]bool, ma
 					tmp := map[string]bool{}
 					f.addTypeComps(el, tmp)
 					for c := range tmp {
-						if !comps[c] {
-							f.lastFreshMods[c] = true
-						}
+						f.lastFreshMods[c] = true
 						comps[c] = true
 					}
 				} else {
@@ -161,10 +160,15 @@ func (f *FnEnc) modSet(blocks map[*ssa.BasicBlock]bool) (map[*ssa.Alloc]bool, ma
 				} else {
 					tmp := map[string]bool{}
 					f.addStoreComps(x.Addr, tmp)
+					root := heapAllocRoot(x.Addr)
 					for c := range tmp {
 						comps[c] = true
-						delete(f.lastFreshMods, c)
-						f.lastFullMods[c] = true
+						if root != nil && !blocks[root.Block()] && strings.HasPrefix(f.e.reg.comps[c].Sort, "(Array Int ") && !strings.HasPrefix(c, "Arr.") {
+							// a field store into an object allocated by this function before the loop
+							f.lastTargets[c] = append(f.lastTargets[c], root)
+						} else {
+							f.lastFullMods[c] = true
+						}
 					}
 				}
 			case *ssa.MakeSlice:
@@ -272,6 +276,25 @@ func (f *FnEnc) addStoreComps(addr ssa.Value, comps map[string]bool) {
 			comps[c] = true
 		}
 	}
+}
+
+// heapAllocRoot returns the heap allocation a field address is rooted in (x.f, x.g.f), if any.
+func heapAllocRoot(v ssa.Value) *ssa.Alloc {
+	switch x := v.(type) {
+	case *ssa.FieldAddr:
+		if a, ok := x.X.(*ssa.Alloc); ok && a.Heap {
+			if x.Field == 0 || true {
+				return a
+			}
+		}
+		if fa, ok := x.X.(*ssa.FieldAddr); ok && fa.Field == 0 {
+			// embedded first field shares the object's reference
+			if a, ok := fa.X.(*ssa.Alloc); ok && a.Heap {
+				return a
+			}
+		}
+	}
+	return nil
 }
 
 func rootIndexAddr(v ssa.Value) *ssa.IndexAddr {
@@ -528,9 +551,17 @@ func (f *FnEnc) loopHead(li *loopInfo) {
 	cells, comps := f.modSet(li.blocks)
 	freshOnly := map[string]bool{}
 	for c := range f.lastFreshMods {
-		if !f.lastFullMods[c] {
+		if !f.lastFullMods[c] && len(f.lastTargets[c]) == 0 {
 			freshOnly[c] = true
 		}
+	}
+	fullMods := map[string]bool{}
+	for c := range f.lastFullMods {
+		fullMods[c] = true
+	}
+	targets := map[string][]ssa.Value{}
+	for c, t := range f.lastTargets {
+		targets[c] = t
 	}
 	if f.c != nil {
 		if extra, ok := f.c.LoopMods[li.ord]; ok {
@@ -557,6 +588,21 @@ func (f *FnEnc) loopHead(li *loopInfo) {
 		// components the loop changes only at freshly allocated references keep their old part
 		if comps[n] && freshOnly[n] && st.comps[n] != pre.comps[n] && strings.HasPrefix(f.e.reg.comps[n].Sort, "(Array Int ") {
 			f.assume(frameFact(st.comps[n], pre.comps[n], pre.comps["W"]))
+		} else if comps[n] && !fullMods[n] && len(targets[n]) > 0 && st.comps[n] != pre.comps[n] {
+			// only fields of objects this function allocated before the loop are stored to
+			var excl []string
+			ok := true
+			for _, tv := range targets[n] {
+				v, has := f.vals[tv]
+				if !has {
+					ok = false
+					break
+				}
+				excl = append(excl, fmt.Sprintf("(not (= r %s))", v.T))
+			}
+			if ok {
+				f.assume(fmt.Sprintf("(forall ((r Int)) (! (=> (and (<= r %s) %s) (= (select %s r) (select %s r))) :pattern ((select %s r))))", pre.comps["W"], strings.Join(excl, " "), st.comps[n], pre.comps[n], st.comps[n]))
+			}
 		}
 	}
 	for _, n := range f.e.reg.compOrd {
